@@ -103,7 +103,8 @@ func (fn bindFunctionObject) construct(argumentList []Value) Value {
 	obj := fn.target
 	switch value := obj.value.(type) {
 	case nativeFunctionObject:
-		return value.construct(obj, fn.argumentList)
+		argumentList = append(fn.argumentList, argumentList...)
+		return value.construct(obj, argumentList)
 	case nodeFunctionObject:
 		argumentList = append(fn.argumentList, argumentList...)
 		return obj.construct(argumentList)
